@@ -11,29 +11,32 @@ tmo="${VERIF_MIRI_TIMEOUT:-3000}"
 root="$(cd "$(dirname "$0")/.." && pwd)"
 mkdir -p "$root/.build/logs"
 log="$root/.build/logs/miri-$(echo "$filter" | tr -c 'A-Za-z0-9_\n' '_').log"
+extra=""
+case "$filter" in selftest*) extra="--ignored";; esac
 start=$(date +%s)
 cd "$root/harness" || { echo "{\"engine\":\"miri\",\"filter\":\"$filter\",\"ran\":false,\"error\":\"no harness dir\"}"; exit 0; }
 MIRIFLAGS="-Zmiri-disable-isolation -Zmiri-many-seeds=$seeds" CARGO_TARGET_DIR="$root/.build/miri" \
-  timeout "$tmo" cargo +nightly miri test -p vmon-miri --offline --test workloads -- "$filter" >"$log" 2>&1
+  timeout "$tmo" cargo +nightly miri test -p vmon-miri --offline --test workloads -- "$filter" $extra >"$log" 2>&1
 rc=$?
 secs=$(( $(date +%s) - start ))
 passed=$(grep -E '^test result:' "$log" | sed -E 's/.* ([0-9]+) passed.*/\1/' | awk '{s+=$1} END {print s+0}')
 failed=$(grep -E '^test result:' "$log" | sed -E 's/.* ([0-9]+) failed.*/\1/' | awk '{s+=$1} END {print s+0}')
-ub=$(grep -cE '^error: (Undefined Behavior|memory leaked|deadlock|the evaluated program (leaked|deadlocked)|abnormal termination|post-monomorphization)' "$log")
-race=$(grep -ciE 'data race detected' "$log")
-unsupported=$(grep -cE '^error: unsupported operation' "$log")
+UBRE='error: (Undefined Behavior|memory leaked|deadlock|the evaluated program (leaked|deadlocked)|abnormal termination|post-monomorphization)'
+ub=$(grep -cE "$UBRE" "$log")
+unsupported=$(grep -cE 'error: unsupported operation' "$log")
+started=$(grep -cE '^running [1-9][0-9]* tests?' "$log")
 reports=$(( ub + failed ))
-[ "$race" -gt 0 ] && [ "$ub" -eq 0 ] && reports=$(( reports + race ))
 ran=false
-[ "$passed" -gt 0 ] || [ "$failed" -gt 0 ] || [ "$ub" -gt 0 ] && ran=true
+[ "$started" -gt 0 ] && ran=true
 note=""
 [ "$rc" -eq 124 ] && { note="timeout after ${tmo}s"; [ "$reports" -eq 0 ] && ran=false; }
 [ "$unsupported" -gt 0 ] && [ "$reports" -eq 0 ] && { note="miri: unsupported operation"; ran=false; }
 [ "$ran" = false ] && [ -z "$note" ] && note="no test ran (build failure, empty filter or toolchain missing; exit $rc)"
 sig=""
 if [ "$reports" -gt 0 ]; then
-  msg=$(grep -m1 -E '^error: |panicked at' "$log" | sed -E 's/alloc[0-9]+/alloc/g; s/0x[0-9a-fA-F]+/ADDR/g; s/[0-9]+/N/g; s/[^A-Za-z: ]//g' | cut -c1-90 | tr ' ' '_')
+  msg=$(grep -m1 -oE "($UBRE|panicked at).*" "$log" | sed -E 's/alloc[0-9]+/alloc/g; s/0x[0-9a-fA-F]+/ADDR/g; s/[0-9]+/N/g; s/[^A-Za-z: ]//g' | cut -c1-90 | tr ' ' '_')
   frame=$(grep -m1 -oE '/repo/[A-Za-z0-9_/.-]+\.rs' "$log" | sed 's#/repo/##')
+  [ -z "$frame" ] && frame=$(grep -m1 -E '^ +--> ' "$log" | sed -E 's/^ +--> ([^:]+):.*/\1/')
   sig="${msg}|${frame}"
 fi
 printf '{"engine":"miri","filter":"%s","ran":%s,"passed":%s,"failed":%s,"reports":%s,"first_report_sig":"%s","seconds":%s,"seeds":"%s","note":"%s","log":"%s"}\n' \
